@@ -462,6 +462,22 @@ def check_normal(ctx, kind, rv, n, d, fkind, tag):
             ctx.violation(f"{kind}:rescale_cholesky:batched", "rescale_cholesky of a stacked Gaussian with one factor per batch entry differs from the entry-wise rescaling",
                           case_desc(kind, "normal-batched-rescale", **tag, factors=np.asarray(facb).tolist()))
         ctx.count("rescale.batched")
+    # operations are functional: rescaling returns a new object and leaves its receiver alone, so a second call on the same
+    # object gives the same result (seeded change C08-s10: an in-place rescale_noise gives s^4 Q on the second call)
+    Cond, _N = make_impl(kind)
+    chol0 = _np(rv.cholesky_flat).copy()
+    f_im = jnp.asarray(facs) if kind == "bd" else jnp.asarray(fac)
+    cnd = Cond(jnp.zeros(_np(rv.cholesky_flat).shape), rv, to_latent=jnp.ones(_np(rv.mean_flat).shape if kind != "iso" else _np(rv.mean_flat).shape[:1]), to_observed=jnp.ones(_np(rv.mean_flat).shape if kind != "iso" else _np(rv.mean_flat).shape[:1]))
+    try:
+        r1 = _np(cnd.rescale_noise(f_im).noise.cholesky_flat)
+        r2 = _np(cnd.rescale_noise(f_im).noise.cholesky_flat)
+        same = np.array_equal(r1, r2) and np.array_equal(_np(cnd.noise.cholesky_flat), chol0) and np.array_equal(_np(rv.rescale_cholesky(f_im).cholesky_flat), r1) and np.array_equal(_np(rv.cholesky_flat), chol0)
+    except Exception:  # noqa: BLE001
+        same = False
+    if not same:
+        ctx.violation(f"{kind}:rescale:not-functional", "rescale_noise / rescale_cholesky changed its receiver or gave a different result on the second call on the same object",
+                      case_desc(kind, "normal-rescale-twice", **tag))
+    ctx.count("rescale.twice")
     # std layout: dense: coefficient-major flat; iso: one scalar per coefficient; bd: (d,n) -> tree of n leaves of d
     if kind == "dense":
         v = var_model[0]
